@@ -31,9 +31,15 @@ def f_chain(**knobs):
     prog = [["static", "src.txt"], tr(f"A{k['a_tag']}", ["src.txt"], ["a.txt"])]
     if k["b"]:
         prog.append(tr("B", ["a.txt"], [k["b_out"]], need=k["b_need"]))
-    if k["c"]:
+    if k["c"] == 1:
         prog.append(tr("C", [k["b_out"]], ["c.txt"]))
+    elif k["c"] == 2:
+        prog.append(["step", "false", {"inp": [k["b_out"]], "out": ["c.txt"]}])
+    if k.get("b_static"):
+        prog.append(["static", "b.txt"])
     files = {"plan.py": script(prog)}
+    if k.get("b_static"):
+        files["b.txt"] = "user provided b\n"
     if k["src_exists"]:
         files["src.txt"] = f"source {k['src']}\n"
     return files
